@@ -143,9 +143,15 @@ def gen_args(rng, kname, pub, d):
     return kw, [], ""
 
 
+# kernels of this module that harness/translate_metrics.py translates (Gen/MetricKernels.lean): each case is also run
+# through the translated kernel (driver `gmetric`) and compared with numba (`translated-kernel:<kernel>`, same rule as
+# the model) and with the model bit for bit (`translated-kernel-vs-model:<kernel>`)
+TRANSLATED2 = ("standardised_euclidean", "weighted_minkowski", "haversine", "tsss")
+
+
 def run_model2(res, rng, n_cases):
     """n_cases pairs per kernel of KERNELS2 / BIT_KERNELS, n_cases vectors for `rankdata`."""
-    cmds, meta = [], []
+    cmds, meta, gcmds = [], [], {}
     for kname, (pub, domain) in KERNELS2.items():
         f = getattr(D, kname)
         for c in range(n_cases):
@@ -169,6 +175,8 @@ def run_model2(res, rng, n_cases):
             kw, args, suffix = gen_args(rng, kname, pub, len(x))
             cmds.append("metric2 %s | %s | %s%s" % (kname, bits_row64(x), bits_row64(y), suffix))
             meta.append((kname, pub, kind, x, y, kw, args, f))
+            if kname in TRANSLATED2:
+                gcmds[len(cmds) - 1] = "gmetric %s | %s | %s%s" % (kname, bits_row64(x), bits_row64(y), suffix)
     for kname, pub in BIT_KERNELS.items():
         f = getattr(D, kname)
         for c in range(n_cases):
@@ -184,9 +192,12 @@ def run_model2(res, rng, n_cases):
         x, _ = gen_spearman(rng, d, kind)
         cmds.append("rankdata | " + bits_row64(x))
         ranks.append((kind, x))
-    outs = run_driver(cmds) if cmds else []
+    gidx = sorted(gcmds)
+    outs = run_driver(cmds + [gcmds[i] for i in gidx]) if cmds else []
+    gouts = dict(zip(gidx, outs[len(cmds):]))
+    outs = outs[:len(cmds)]
 
-    for (kname, pub, kind, x, y, kw, args, f), out in zip(meta, outs):
+    for k, ((kname, pub, kind, x, y, kw, args, f), out) in enumerate(zip(meta, outs)):
         case = {"kernel": kname, "gen": kind, "dtype": str(x.dtype), "x": x.tolist(), "y": y.tolist(),
                 "kwds": R.kwds_to_json(kw)}
         zx, zy = not np.any(x), not np.any(y)
@@ -202,6 +213,13 @@ def run_model2(res, rng, n_cases):
             a = float(f(x, y, *args))
         except Exception as e:
             a = type(e).__name__
+        if k in gouts:
+            g = gouts[k]
+            res.count("translated:compared")
+            same = (g == out) or (g == "oob" and out == "ValueError") or \
+                (g not in ("oob", "bad-op") and out not in ("ValueError", "bad-op") and math.isnan(from_bits64(g)) and math.isnan(from_bits64(out)))
+            if not same:
+                res.corr_fail("translated-kernel-vs-model:" + kname, case, out, g)
         if out == "ValueError" or isinstance(a, str):
             # the model's `none` is exactly the kernel's ValueError (haversine, dim != 2); nothing else may raise
             if not (out == "ValueError" and a == "ValueError"):
@@ -226,6 +244,8 @@ def run_model2(res, rng, n_cases):
             ok = R.close(a, m, pub, scale)
         if not ok:
             res.corr_fail(key, case, m, a)
+            if k in gouts and gouts[k] == out:      # the translated kernel returned the model's value bit for bit
+                res.corr_fail("translated-kernel:" + kname, case, m, a)
             undefined = (zx or zy) and s["zero"] != "ok"
             if not undefined:
                 r = s["ref"](x, y, **kw)
